@@ -13,15 +13,16 @@ import os.path
 import runpy
 import sys
 from pathlib import Path
-from typing import IO, TYPE_CHECKING, List, Optional, Tuple
+from typing import IO, TYPE_CHECKING, List, Optional, Set, Tuple
 
-from libcst import Module, parse_module
+from libcst import Import, ImportStar, Module, parse_module
 from libcst.codemod import CodemodContext
 from libcst.codemod.visitors import (
     ApplyTypeAnnotationsVisitor,
     GatherImportsVisitor,
     ImportItem,
 )
+from libcst.helpers import get_absolute_module_from_package_for_import
 
 from monkeytype import trace
 from monkeytype.config import Config
@@ -146,6 +147,33 @@ class HandlerError(Exception):
     pass
 
 
+def _all_import_items(gatherer: GatherImportsVisitor) -> Set[ImportItem]:
+    """Every item of every import statement the gatherer visited.
+
+    symbol_mapping keeps only the last import of each bound name, so an import
+    that a later one shadows (try/except fallbacks, function-local imports)
+    is missing from it.
+    """
+    items: Set[ImportItem] = set()
+    for node in gatherer.all_imports:
+        if isinstance(node, Import):
+            for name in node.names:
+                items.add(ImportItem(name.evaluated_name, alias=name.evaluated_alias))
+        elif not isinstance(node.names, ImportStar):
+            module = get_absolute_module_from_package_for_import(None, node)
+            if module is None:
+                continue
+            for name in node.names:
+                items.add(
+                    ImportItem(
+                        module,
+                        obj_name=name.evaluated_name,
+                        alias=name.evaluated_alias,
+                    )
+                )
+    return items
+
+
 def get_newly_imported_items(
     stub_module: Module, source_module: Module
 ) -> List[ImportItem]:
@@ -157,7 +185,7 @@ def get_newly_imported_items(
     context = CodemodContext()
     gatherer = GatherImportsVisitor(context)
     source_module.visit(gatherer)
-    source_imports = list(gatherer.symbol_mapping.values())
+    source_imports = _all_import_items(gatherer)
     # Names from a module the source star-imports are already available there
     # (libcst does not record them individually in symbol_mapping).
     star_imported_modules = {
